@@ -3,14 +3,18 @@
 stdin : {"cases": [case, ...], "timeout": seconds per case}
   case = {"dim": d, "pts": [[int,...],...], "mls": int, "strategy": "balanced|fast|random", "seed": int,
           "dtype": "float|int", "knn": [[Q, k], ...], "rad": [[Q, m], ...],
-          "ambient": [[[x, priority], ...], ...]   (optional: other PriorityQueue objects alive during the run)}
+          "ambient": [[[x, priority], ...], ...]   (optional: other PriorityQueue objects alive during the run),
+          "container": "list|tuple|float|int|fortran|view"  (form in which the points are handed to the constructor),
+          "mutate": "reverse|shift|row"  (optional, ndarray containers: after construction the caller overwrites its array
+                     and builds a second tree from it; the queries then go to the FIRST tree)}
   Coordinates of the points are integers. Query points are given DOUBLED (Q = 2q, so q has half-integer
   coordinates) and the radius of a radius query is r = sqrt(m)/2, i.e. m = (2r)^2.
 stdout: '@@JSON ' + {"obs": [obs, ...]}
   obs = {"status": "ok", "pivots": [2*pivot,...] (what _find_pivot returned, in call order),
          "nodes": [["L", id, axis, [pt idx...], lo, hi] | ["N", id, axis, 2*split_value, left, right, lo, hi]],
          "knn": [[idx...] | ["error", msg]], "rad": [[idx...] | ["error", msg]],
-         "ambient_after": [sorted [[x, priority], ...] per ambient queue]   (their contents after all queries)}
+         "ambient_after": [sorted [[x, priority], ...] per ambient queue]   (their contents after all queries),
+         "now": the caller's container as it is while the queries run (doubled), "input_modified_by_build/_query": bool}
       | {"status": "timeout", "where": ...} | {"status": "error", "msg": ...}
       | {"status": "skipped"}  (after `max_timeouts` build time-outs in this payload the remaining cases are not run)
   Box bounds are doubled integers or the strings "-inf" / "inf". Everything is doubled so that medians of integer
@@ -77,8 +81,28 @@ def run_case(case, timeout):
         ambient.append(pq)
 
     d = case["dim"]
-    dt = float if case.get("dtype", "float") == "float" else int
-    P = np.array(case["pts"], dtype=dt).reshape(len(case["pts"]), d)
+    n = len(case["pts"])
+    # the caller's container: every form the constructor accepts
+    cont = case.get("container") or ("int" if case.get("dtype", "float") == "int" else "float")
+    if n == 0 and cont in ("list", "tuple"):
+        cont = "float"          # an empty list has no (N,d) shape
+    base = np.array(case["pts"], dtype=float).reshape(n, d)
+    if cont == "list":
+        P = [[float(c) for c in p] for p in case["pts"]]
+    elif cont == "tuple":
+        P = tuple(tuple(float(c) for c in p) for p in case["pts"])
+    elif cont == "int":
+        P = np.array(case["pts"], dtype=int).reshape(n, d)
+    elif cont == "fortran":
+        P = np.asfortranarray(base)
+    elif cont == "view":          # non-contiguous view into a larger buffer
+        big = np.full((2 * n + 1, d + 2), -77.0)
+        big[1:2 * n + 1:2, 1:d + 1] = base
+        P = big[1:2 * n + 1:2, 1:d + 1]
+    else:
+        P = base.copy()
+    is_arr = isinstance(P, np.ndarray)
+    before = P.copy() if is_arr else None
     np.random.seed(case["seed"])
     signal.signal(signal.SIGALRM, _alarm)
     signal.setitimer(signal.ITIMER_REAL, timeout)
@@ -103,6 +127,32 @@ def run_case(case, timeout):
         out = {"status": "ok", "pivots": [dbl(p) for p in rec], "nodes": nodes, "knn": [], "rad": []}
     except Exception as ex:  # noqa
         return {"status": "error", "msg": "canonicalise: %s: %s" % (type(ex).__name__, ex)}
+    out["container"] = cont
+    out["input_modified_by_build"] = bool(is_arr and not np.array_equal(P, before))
+    # the caller goes on using its array: refill it and build another tree from it, then query the FIRST tree
+    mut = case.get("mutate") if is_arr and n > 0 else None
+    if mut:
+        if mut == "reverse":
+            P[:] = P[::-1].copy()
+        elif mut == "shift":
+            P += 7
+        elif mut == "row":
+            P[0] = P[-1] + 5
+        signal.setitimer(signal.ITIMER_REAL, timeout)
+        try:
+            KDTree(P, max_leaf_size=case["mls"], strategy=case["strategy"])
+        except CaseTimeout:
+            out["second_tree"] = "timeout"
+        except Exception as ex:  # noqa
+            out["second_tree"] = "%s: %s" % (type(ex).__name__, ex)
+        finally:
+            signal.setitimer(signal.ITIMER_REAL, 0)
+        before = P.copy()
+    # what the caller's container holds while the queries run (doubled integers)
+    try:
+        out["now"] = [[dbl(c) for c in row] for row in (np.asarray(P, dtype=float).reshape(n, d) if n else [])]
+    except Exception as ex:  # noqa
+        return {"status": "error", "msg": "caller's array: %s: %s" % (type(ex).__name__, ex)}
 
     def guarded(f):
         signal.setitimer(signal.ITIMER_REAL, timeout)
@@ -123,6 +173,7 @@ def run_case(case, timeout):
         q = np.array(Q, dtype=float) / 2.0
         r = math.sqrt(m) / 2.0
         out["rad"].append(guarded(lambda: tree.query_radius(q, r)))
+    out["input_modified_by_query"] = bool(is_arr and not np.array_equal(P, before))
     try:
         out["ambient_after"] = [sorted([[plain(it.x), float(it.priority)] for it in pq.data], key=repr) for pq in ambient]
     except Exception as ex:  # noqa
